@@ -144,18 +144,47 @@ theorem npend_zero_pendingCommands (t : TrapMap) (h : npend t = 0) : pendingComm
     simp only [pendingCommands, h1, if_false, ih h2]
     cases g.current.action <;> rfl
 
-theorem runTrap_nodivert (body : Nat → Int → BodyResult) (hb : ∀ c e, (body c e).divert = false)
-    (c : Nat) (e : Int) : runTrap body c e = (e, false) := by
-  simp [runTrap, hb]
+/-- bodies that leave the trap set alone -/
+def MapPreserving (body : Body) : Prop := ∀ c e t, (body c e t).2 = t
 
-/-- with bodies that do not divert, the loop runs exactly the pending command traps, keeps `$?`
-    and leaves nothing pending -/
-theorem drain_spec (body : Nat → Int → BodyResult) (hb : ∀ c e, (body c e).divert = false)
+/-- bodies that never end in a divert -/
+def NoDivert (body : Body) : Prop := ∀ c e t, (body c e t).1.divert = none
+
+theorem runTrap_traps (body : Body) (hm : MapPreserving body) (c : Nat) (e : Int) (t : TrapMap) :
+    (runTrap body c e t).2.2 = t := by
+  unfold runTrap
+  simp only
+  split <;> exact hm c e t
+
+theorem runTrap_exit_of_none (body : Body) (c : Nat) (e : Int) (t : TrapMap)
+    (h : (runTrap body c e t).2.1 = none) : (runTrap body c e t).1 = e := by
+  unfold runTrap at h ⊢
+  simp only at h ⊢
+  split
+  · rename_i st hd; simp [hd] at h
+  · rfl
+
+theorem runTrap_nodivert (body : Body) (hb : NoDivert body) (c : Nat) (e : Int) (t : TrapMap) :
+    (runTrap body c e t).2.1 = none := by
+  unfold runTrap
+  simp only
+  split
+  · rename_i st hd; rw [hb] at hd; cases hd
+  · exact hb c e t
+
+/-- Conservation at one boundary, whatever the bodies end in: the actions run plus the actions
+    still pending are exactly the actions that were pending, in order (nothing lost, nothing
+    duplicated); if the run was not cut short by a divert nothing is left pending and `$?` is kept;
+    and if something was due, at least one action ran. -/
+theorem drain_conserve (body : Body) (hm : MapPreserving body)
     (fuel : Nat) (t : TrapMap) (exit : Int) (runs : List (Nat × Nat)) (hf : npend t < fuel) :
-    (drain body fuel t exit runs).2.2 = runs ++ pendingCommands t
-    ∧ (drain body fuel t exit runs).2.1 = exit
-    ∧ npend (drain body fuel t exit runs).1 = 0 := by
-  induction fuel generalizing t runs with
+    (drain body fuel t exit runs).runs ++ pendingCommands (drain body fuel t exit runs).traps
+        = runs ++ pendingCommands t
+    ∧ ((drain body fuel t exit runs).divert = none →
+        npend (drain body fuel t exit runs).traps = 0 ∧ (drain body fuel t exit runs).exit = exit)
+    ∧ (pendingCommands t ≠ [] → runs.length < (drain body fuel t exit runs).runs.length)
+    ∧ runs.length ≤ (drain body fuel t exit runs).runs.length := by
+  induction fuel generalizing t exit runs with
   | zero => omega
   | succ fuel ih =>
     simp only [drain]
@@ -170,19 +199,110 @@ theorem drain_spec (body : Nat → Int → BodyResult) (hb : ∀ c e, (body c e)
       simp only
       cases hact : ts.action with
       | command c =>
-        simp only [runTrap_nodivert body hb]
-        have := ih (takeCaughtSignal t).1 (runs ++ [(k, c)]) hf'
-        simp only [Bool.false_eq_true, if_false]
+        simp only
+        have htr := runTrap_traps body hm c exit (takeCaughtSignal t).1
         rw [hs.1, hact]
-        simpa using this
+        cases hd : (runTrap body c exit (takeCaughtSignal t).1).2.1 with
+        | some d =>
+          simp only [htr]
+          refine ⟨by simp, by simp, by simp, by simp⟩
+        | none =>
+          simp only [htr]
+          have he := runTrap_exit_of_none body c exit _ hd
+          rw [he]
+          have := ih (takeCaughtSignal t).1 exit (runs ++ [(k, c)]) hf'
+          refine ⟨by simpa using this.1, this.2.1, ?_, ?_⟩
+          · intro _
+            have := this.2.2.2
+            simp only [List.length_append, List.length_cons, List.length_nil] at this
+            omega
+          · have := this.2.2.2
+            simp only [List.length_append, List.length_cons, List.length_nil] at this
+            omega
       | default =>
-        have := ih (takeCaughtSignal t).1 runs hf'
+        have := ih (takeCaughtSignal t).1 exit runs hf'
         rw [hs.1, hact]
         simpa using this
       | ignore =>
-        have := ih (takeCaughtSignal t).1 runs hf'
+        have := ih (takeCaughtSignal t).1 exit runs hf'
         rw [hs.1, hact]
         simpa using this
+
+/-- with bodies that do not divert, the loop runs exactly the pending command traps, keeps `$?`
+    and leaves nothing pending -/
+theorem drain_spec (body : Body) (hm : MapPreserving body) (hb : NoDivert body)
+    (fuel : Nat) (t : TrapMap) (exit : Int) (runs : List (Nat × Nat)) (hf : npend t < fuel) :
+    (drain body fuel t exit runs).runs = runs ++ pendingCommands t
+    ∧ (drain body fuel t exit runs).exit = exit
+    ∧ npend (drain body fuel t exit runs).traps = 0
+    ∧ (drain body fuel t exit runs).divert = none := by
+  have hnd : (drain body fuel t exit runs).divert = none := by
+    clear hf
+    induction fuel generalizing t exit runs with
+    | zero => rfl
+    | succ fuel ih =>
+      simp only [drain]
+      cases h : (takeCaughtSignal t).2 with
+      | none => rfl
+      | some p =>
+        obtain ⟨k, ts⟩ := p
+        simp only
+        cases hact : ts.action with
+        | command c =>
+          simp only
+          rw [runTrap_nodivert body hb]
+          exact ih _ _ _
+        | default => exact ih _ _ _
+        | ignore => exact ih _ _ _
+  have hc := drain_conserve body hm fuel t exit runs hf
+  have h0 := hc.2.1 hnd
+  have hpc := npend_zero_pendingCommands _ h0.1
+  refine ⟨?_, h0.2, h0.1, hnd⟩
+  have := hc.1
+  rw [hpc, List.append_nil] at this
+  exact this
+
+theorem runTraps_conserve (body : Body) (hm : MapPreserving body) (t : TrapMap) (exit : Int) :
+    (runTrapsForCaughtSignals body false t exit).runs
+        ++ pendingCommands (runTrapsForCaughtSignals body false t exit).traps = pendingCommands t
+    ∧ ((runTrapsForCaughtSignals body false t exit).divert = none →
+        npend (runTrapsForCaughtSignals body false t exit).traps = 0
+        ∧ (runTrapsForCaughtSignals body false t exit).exit = exit)
+    ∧ (pendingCommands t ≠ [] → 0 < (runTrapsForCaughtSignals body false t exit).runs.length) := by
+  have hf : npend t < t.length + 1 := Nat.lt_succ_of_le (npend_le_length t)
+  have := drain_conserve body hm (t.length + 1) t exit [] hf
+  simp only [runTrapsForCaughtSignals, Bool.false_eq_true, if_false]
+  refine ⟨by simpa using this.1, this.2.1, ?_⟩
+  intro hne
+  simpa using this.2.2.1 hne
+
+theorem boundaries_conserve (body : Body) (hm : MapPreserving body) (es : List Int) (t : TrapMap)
+    (runs : List (Nat × Nat)) :
+    (boundaries body es t runs).2 ++ pendingCommands (boundaries body es t runs).1
+      = runs ++ pendingCommands t := by
+  induction es generalizing t runs with
+  | nil => rfl
+  | cons e es ih =>
+    simp only [boundaries]
+    rw [ih, List.append_assoc, (runTraps_conserve body hm t e).1]
+
+theorem boundaries_complete (body : Body) (hm : MapPreserving body) (es : List Int) (t : TrapMap)
+    (runs : List (Nat × Nat)) (hlen : (pendingCommands t).length ≤ es.length) :
+    pendingCommands (boundaries body es t runs).1 = [] := by
+  induction es generalizing t runs with
+  | nil =>
+    simp only [List.length_nil, Nat.le_zero, List.length_eq_zero_iff] at hlen
+    exact hlen
+  | cons e es ih =>
+    simp only [boundaries]
+    apply ih
+    have hc := runTraps_conserve body hm t e
+    have hl := congrArg List.length hc.1
+    simp only [List.length_append, List.length_cons] at hl hlen
+    by_cases hne : pendingCommands t = []
+    · rw [hne] at hl; simp only [List.length_nil] at hl; omega
+    · have := hc.2.2 hne
+      omega
 
 /-! ### what is pending for one signal -/
 
